@@ -185,8 +185,9 @@ def finish(res, tier, seed, level, t0, rule, assumptions, exhaustive=False, extr
 
 
 # ---- codec family -------------------------------------------------------------------------
-def gen_codec(modidx, planset, depth, exact=True, extra_consts=(), maxcompose=6, xervals=2, valcap=0, maxfail=6):
-    consts = ["Mod <- TheMod", "ModIdx = %d" % modidx, 'PlanSet = "%s"' % planset, "Depth = %d" % depth, "MaxCompose = %d" % maxcompose, "XerVals = %d" % xervals, "ValCap = %d" % valcap, "MaxFail = %d" % maxfail,
+def gen_codec(modidx, planset, depth, exact=True, extra_consts=(), maxcompose=6, xervals=2, valcap=0, maxfail=6, leafcap=0, dense=False):
+    consts = ["Mod <- TheMod", "ModIdx = %d" % modidx, 'PlanSet = "%s"' % planset, "Depth = %d" % depth, "MaxCompose = %d" % maxcompose, "XerVals = %d" % xervals, "ValCap = %d" % valcap, "MaxFail = %d" % maxfail, "LeafCap = %d" % leafcap,
+              "MutDense = %s" % ("TRUE" if dense else "FALSE"),
               "ByteExact = %s" % ("TRUE" if exact else "FALSE")] + list(extra_consts)
     return lib.generate("MC_Gen", consts, ["RoundTrip", "WireCanonical", "DecSound", "Export"], workers=gen_workers)
 
@@ -196,13 +197,13 @@ def nontrivial(M, scn):
 
 
 def codec_family(prop, tier, seed, planset, level="model_checking", san="plain", rule="", modules=(1, 2, 3), depth=None, exact=True,
-                 valcap=0, maxfail=6, invariants=("RoundTrip",)):
+                 valcap=0, maxfail=6, invariants=("RoundTrip",), leafcap=0, dense=False):
     t0 = time.time()
     res = Result(prop)
     known = lib.load_findings(prop)
     depth = depth or (2 if tier == "quick" else 3)
     for mi in modules:
-        mod, scns, st = gen_codec(mi, planset, depth, exact, valcap=valcap, maxfail=maxfail)
+        mod, scns, st = gen_codec(mi, planset, depth, exact, valcap=valcap, maxfail=maxfail, leafcap=leafcap, dense=dense)
         res.states += st["distinct"]
         res.transitions += st["states"]
         M = Module(mod)
@@ -251,7 +252,8 @@ def check_C14(tier, seed):
 
 
 def check_C04(tier, seed):
-    return codec_family("C04", tier, seed, "mutations", exact=False, san="asan", valcap=2 if tier == "quick" else 6, level="exploration",
+    return codec_family("C04", tier, seed, "mutations", exact=False, san="asan", valcap=2 if tier == "quick" else 6,
+                        leafcap=3 if tier == "quick" else 0, dense=(tier != "quick"), level="exploration",
                         rule="per (type, value, syntax in DER/OER/UPER/CXER): every truncation, byte substitutions {00,01,7f,80,81,ff,+1,-1,+80} at every position (first 6 / last 4 of long encodings), duplicated tail, dropped byte, appended ff*4; decode (rc in {OK,WMORE,FAIL}, consumed <= size), print, validate, re-encode, decode the re-encoding (must compare equal), free; ASan+UBSan build: any report is a Crash event that no spec action explains")
 
 
